@@ -88,7 +88,7 @@ def rule_a(ctx, rid, body_filter):
         key = s.key
         if d:
             counts[d[0]] += 1
-            ctx.ok(rid, key, s.span, s.b.id, "%s: %s" % d, how="auto")
+            ctx.ok(rid, key, s.span, s.b.id, "%s — %s: %s" % (s.text.split(":")[-1][:100], d[0], d[1]), how="auto")
             continue
         if s.kind == "borrow" and okb and s.b.id in render_phase:
             counts["borrow"] += 1
@@ -107,8 +107,8 @@ def rule_a(ctx, rid, body_filter):
         elif s.term.get("args"):
             cls = " argument classes: " + "/".join(show(mag.cls_op(s.b, o)) for o in s.term["args"])
         ctx.violation(rid, key, s.span, s.b.id,
-                      "%s may panic here and nothing discharges it (no magnitude-class bound, no dominating guard, no "
-                      "reviewed row).%s" % (s.desc, cls))
+                      "%s may panic here: %s — nothing discharges it (no magnitude-class bound, no dominating guard, no "
+                      "reviewed row).%s" % (s.desc, s.text.split(":", 1)[-1][-160:], cls))
     ctx.stats["panic_sites"] = n
     ctx.stats["discharge"] = counts
     ctx.floor(rid, "panic-capable sites on the routes", n, 200 if body_filter is None else 60)
